@@ -13,13 +13,21 @@
 (*          {.}, {#}, {.#}; the driver builds a regex and a dissect matcher with  *)
 (*          these groups, evaluates the match many times and records every        *)
 (*          distinct text                                                        *)
+(*  hist  multi-source histories for ONE extractor: 2 sources of 1..2 lines and   *)
+(*          3 sources of 1 line, the lines drawn from a pool of HPool lines      *)
+(*          (rotated by Seed) x 4 choices of named groups / view.  The driver    *)
+(*          feeds every source as batches with line numbers restarting at 1      *)
+(*          to extractor.New with one worker and with several, with and without *)
+(*          an ignore set that evaluates the view first (MiniJsonCtx is the      *)
+(*          model of these runs), and records the whole history                  *)
 (* The recorded outputs are validated by MiniJson_Trace.                         *)
 EXTENDS MiniJsonEnc, Json
 
 CONSTANTS N,       \* exhaustive value length in symbols
           Seed,    \* selects the slice of (N+1)-symbol values
           Slices,  \* number of slices (1 = all of them)
-          Pool3    \* size of the value pool for three groups
+          Pool3,   \* size of the value pool for three groups
+          HPool    \* number of lines in the pool of the history vectors
 
 VARIABLE g
 
@@ -73,14 +81,33 @@ ViewVector(x) ==
    exp |-> Pairs(Expected(names, groups, named, numb)),
    ref |-> Encode(names, groups, named, numb)]
 
+\* ---- histories: lines of two groups
+HLineSeq == <<<<<<97>>, <<55>>>>, <<<<98>>, <<55>>>>, <<<<97>>, <<48, 48, 55>>>>, <<<<34>>, <<255>>>>, <<<<>>, <<97>>>>,
+              <<<<84, 114, 117, 101>>, <<49>>>>, <<<<98>>, <<55, 46, 48>>>>>>
+HLine(i) == HLineSeq[((i + Seed) % Len(HLineSeq)) + 1]
+HSrcs == UNION {[1..k -> 1..HPool] : k \in 1..2}
+HScen == {<<a, b>> : a \in HSrcs, b \in HSrcs} \cup {<<a, b, c>> : a \in [1..1 -> 1..HPool], b \in [1..1 -> 1..HPool], c \in [1..1 -> 1..HPool]}
+HViews == <<[named |-> {1, 2}, view |-> "."], [named |-> {1}, view |-> ".#"], [named |-> {}, view |-> "#"], [named |-> {2}, view |-> "."]>>
+HistVector(x) ==
+  LET hv == HViews[x.hv]  names == NamesOf(hv.named)
+      named == hv.view \in {".", ".#"}  numb == hv.view \in {"#", ".#"} IN
+  [t |-> "hist", named |-> SetToSeq(hv.named), view |-> hv.view, names |-> names,
+   srcs |-> [s \in 1..Len(x.srcs) |-> [k \in 1..Len(x.srcs[s]) |->
+               LET vals == HLine(x.srcs[s][k])  groups == GroupsOf(vals) IN
+               [vals |-> vals, groups |-> groups, exp |-> Pairs(Expected(names, groups, named, numb)),
+                ref |-> Encode(names, groups, named, numb)]]]]
+
 \* header states (one per first symbol / per group count), their successors are the vectors
 Init == g \in {[hdr |-> TRUE, kind |-> "val", part |-> p, x |-> <<>>] : p \in 0..NS}
              \cup {[hdr |-> TRUE, kind |-> "view", part |-> n, x |-> <<>>] : n \in 1..3}
+             \cup {[hdr |-> TRUE, kind |-> "hist", part |-> n, x |-> <<>>] : n \in 1..Len(HViews)}
 ValPart(p) == IF p = 0 THEN {v \in Vals : v = <<>> \/ \A q \in 1..NS : ~IsPrefixOf(SymSeq[q], v)}
               ELSE {v \in Vals : v # <<>> /\ IsPrefixOf(SymSeq[p], v) /\ \A q \in 1..(p - 1) : ~IsPrefixOf(SymSeq[q], v)}
 Next == g.hdr /\ g' \in (IF g.kind = "val"
                          THEN {[hdr |-> FALSE, kind |-> "val", part |-> g.part, x |-> v] : v \in ValPart(g.part)}
-                         ELSE {[hdr |-> FALSE, kind |-> "view", part |-> g.part, x |-> x] : x \in {y \in ViewCases : Len(y.vals) = g.part}})
+                         ELSE IF g.kind = "view"
+                         THEN {[hdr |-> FALSE, kind |-> "view", part |-> g.part, x |-> x] : x \in {y \in ViewCases : Len(y.vals) = g.part}}
+                         ELSE {[hdr |-> FALSE, kind |-> "hist", part |-> g.part, x |-> [srcs |-> sc, hv |-> g.part]] : sc \in HScen})
 
-Dump == g.hdr \/ PrintT("VFJ " \o ToJson(IF g.kind = "val" THEN ValVector(g.x) ELSE ViewVector(g.x)))
+Dump == g.hdr \/ PrintT("VFJ " \o ToJson(IF g.kind = "val" THEN ValVector(g.x) ELSE IF g.kind = "view" THEN ViewVector(g.x) ELSE HistVector(g.x)))
 =============================================================================
